@@ -49,7 +49,20 @@ def _pop_loop(fn: ast.FunctionDef) -> ast.While:
 def _iteration(ctx, dotted, loop, kind, ranges):
     """'stop' / 'pop' / 'either' for one iteration with `kind` on top"""
     w = P.TopKind(ctx, dotted, ranges)
-    o = w.run_block(loop.body, {(frozenset([kind]), frozenset())})
+    # the loop condition is part of the iteration: `while <top>.kind not in K:` stops when it is false
+    init = (frozenset([kind]), frozenset())
+    cond_stop = False
+    entry = {init}
+    if not (isinstance(loop.test, ast.Constant) and loop.test.value):
+        yes, no = w._branch(loop.test, init)
+        # only a test that really refines the kind on top decides anything; presence tests
+        # (`any(...)`, `_parser_have(...)`) are handled by the callers
+        if w._kind_test(loop.test, frozenset()) is not None or (isinstance(loop.test, ast.UnaryOp) and w._kind_test(loop.test.operand, frozenset()) is not None):
+            cond_stop = bool(no)
+            entry = set(yes)
+    o = w.run_block(loop.body, entry) if entry else type("O", (), {"brk": set(), "ret": [], "fall": set(), "cont": []})()
+    if cond_stop:
+        o.brk = set(o.brk) | {init}
     stops = bool(o.brk or o.ret) and not w.pops
     pops = bool(w.pops)
     if w.lost_precision and not pops and not stops:
@@ -150,22 +163,56 @@ def rule_r3(ctx) -> RuleResult:
     if len(loops) != 1:
         raise AnalysisError("subtitle_end_fn: search loop vanished")
     lp = loops[0]
-    v = unparse(lp.target)
-    if unparse(lp.iter) in ("reversed(ctx.parser_stack)", "ctx.parser_stack[::-1]"):
+    it = lp.iter
+    tgt = lp.target
+    if isinstance(it, ast.Call) and unparse(it.func) == "enumerate" and it.args and isinstance(tgt, ast.Tuple) and len(tgt.elts) == 2:
+        it, tgt = it.args[0], tgt.elts[1]
+    if not isinstance(tgt, ast.Name):
+        raise AnalysisError("subtitle_end_fn: loop target `{}` outside the supported fragment (inconclusive)".format(unparse(lp.target)))
+    v = tgt.id
+    its = unparse(it)
+    if its in ("reversed(ctx.parser_stack)", "ctx.parser_stack[::-1]"):
         rr.ok(dotted, "search runs from the top of the stack")
+    elif its == "ctx.parser_stack":
+        rr.bad(Finding("C02.R3", P.PARSER, dotted, unparse(lp.iter), "the start node is searched from the bottom of the stack, not from the innermost open node", lp.lineno))
     else:
-        rr.bad(Finding("C02.R3", P.PARSER, dotted, unparse(lp.iter), "the start node is not searched from the innermost open node", lp.lineno))
-    first = lp.body[0] if lp.body else None
-    if isinstance(first, ast.If) and unparse(first.test) == "{}.loc != ctx.linenum".format(v) and isinstance(first.body[-1], ast.Break):
+        raise AnalysisError("subtitle_end_fn: iteration `{}` outside the supported fragment (inconclusive)".format(its))
+    # same-line bound: some `if <v>.loc != ctx.linenum: ... break` (or `==` with the break in the else) guards the rest of the body
+    loc_tests = [n for n in ast.walk(lp) if isinstance(n, ast.If) and isinstance(n.test, ast.Compare) and len(n.test.ops) == 1
+                 and {unparse(n.test.left), unparse(n.test.comparators[0])} == {v + ".loc", "ctx.linenum"}]
+    bounded = False
+    for n in loc_tests:
+        brk_body = n.body and isinstance(n.body[-1], (ast.Break, ast.Return))
+        brk_else = n.orelse and isinstance(n.orelse[-1], (ast.Break, ast.Return))
+        if (isinstance(n.test.ops[0], ast.NotEq) and brk_body) or (isinstance(n.test.ops[0], ast.Eq) and brk_else):
+            bounded = True
+    if bounded:
         rr.ok(dotted, "search is bounded to nodes opened on this line")
-    else:
+    elif not any(isinstance(x, ast.Attribute) and x.attr == "loc" for x in ast.walk(lp)):
         rr.bad(Finding("C02.R3", P.PARSER, dotted, "if {}.loc != ctx.linenum: break".format(v),
-                       "a heading end can close a heading opened on another line", lp.lineno))
-    tests = [n for n in ast.walk(lp) if isinstance(n, ast.If) and unparse(n.test) == "{}.kind == kind".format(v)]
-    if tests and "kind = SUBTITLE_TO_KIND[token]" in unparse(fn):
-        rr.ok(dotted, "matches the kind of its own marker")
+                       "a heading end can close a heading opened on another line (the search never looks at the line a node was opened on)", lp.lineno))
     else:
-        rr.bad(Finding("C02.R3", P.PARSER, dotted, "{}.kind == kind".format(v), "the end marker is not matched against a start of the same kind", lp.lineno))
+        raise AnalysisError("subtitle_end_fn: the same-line bound of the search has an unrecognised shape (inconclusive)")
+    kind_tests = [n for n in ast.walk(lp) if isinstance(n, (ast.If, ast.IfExp)) and isinstance(n.test, ast.Compare) and len(n.test.ops) == 1
+                  and unparse(n.test.left) == v + ".kind"]
+    kind_from_token = any(isinstance(a, ast.Assign) and unparse(a.targets[0]) == "kind" and "SUBTITLE_TO_KIND" in unparse(a.value) and "token" in unparse(a.value)
+                          for a in walk_no_nested(fn))
+    good = [n for n in kind_tests if isinstance(n.test.ops[0], ast.Eq) and unparse(n.test.comparators[0]) == "kind"]
+    bound_ifs = [n for n in loc_tests if (isinstance(n.test.ops[0], ast.NotEq) and n.body and isinstance(n.body[-1], (ast.Break, ast.Return)))
+                 or (isinstance(n.test.ops[0], ast.Eq) and n.orelse and isinstance(n.orelse[-1], (ast.Break, ast.Return)))]
+    if good and bound_ifs and min(g.lineno for g in good) < min(b_.lineno for b_ in bound_ifs) \
+            and not any(g in list(ast.walk(b_)) for g in good for b_ in bound_ifs):
+        rr.bad(Finding("C02.R3", P.PARSER, dotted, unparse(good[0].test),
+                       "the kind match is evaluated before the same-line bound: an end marker that was demoted to text inside a one-line "
+                       "template/link closes an enclosing section of the same level opened on an earlier line", good[0].lineno))
+    elif good and kind_from_token:
+        rr.ok(dotted, "matches the kind of its own marker")
+    elif kind_tests and not good:
+        rr.bad(Finding("C02.R3", P.PARSER, dotted, unparse(kind_tests[0].test), "the end marker is not matched against a start of the same kind", lp.lineno))
+    elif not kind_tests and not any(isinstance(x, ast.Attribute) and x.attr == "kind" for x in ast.walk(lp)):
+        rr.bad(Finding("C02.R3", P.PARSER, dotted, "{}.kind == kind".format(v), "the end marker is matched without looking at the kind of the open heading", lp.lineno))
+    else:
+        raise AnalysisError("subtitle_end_fn: kind comparison of the search has an unrecognised shape (inconclusive)")
     return rr
 
 
